@@ -430,7 +430,7 @@ func runChild(p params) {
 		rep.Violate(v.Key, v.What, r)
 	}
 	// the Coq model recomputes the array from the items (cost ~ items x hash functions): keep the case affordable
-	if p.Scenario == "adders" && co.Final != "" && !cfg.Search && len(co.Items)*int(p.HashFuncs+1) <= 20000 {
+	if p.Scenario == "adders" && co.Final != "" && !cfg.Search && len(co.Items)*int(p.HashFuncs+1) <= 9000 {
 		items := make([]string, len(co.Items))
 		for i, it := range co.Items {
 			items[i] = vh.CoqBytes(mustHex(it))
@@ -519,7 +519,7 @@ func main() {
 	r := rng.Fork("stress")
 	for round := 0; round < rounds; round++ {
 		for _, k := range []int{1, 2, 4, 8, 16, 32} {
-			perG := 3000 / k
+			perG := 2400 / k
 			if perG < 60 {
 				perG = 60
 			}
